@@ -427,7 +427,9 @@ RoundTripAt(o, i) ==
     (q.op = "parse" /\ "back" \in DOMAIN q /\ ~q.partial) =>
     \A j \in Others(o, i) :
         LET w == o[j] IN
-        (w.op = "write" /\ w.res.k = "ok" /\ q.ty = w.ty /\ q.in = w.res.out /\ q.back = w.id)
+        (w.op = "write" /\ w.res.k = "ok" /\ q.ty = w.ty /\ q.in = w.res.out /\ q.back = w.id
+           \* special values are only required to read back "when the format permits special values"
+           /\ ~(IsFloatTy(w.ty) /\ w.v.cls \in {"nan", "inf"} /\ FmtOf(w).no_special))
         => /\ q.res.k = "ok"
            /\ (ExactBack(w) => SameVal(q.res.v, w.v))
 
